@@ -7,6 +7,9 @@ import r_fwd
 import r_scope
 import r_pair
 import r_nogrow
+import r_freeze
+import r_lock
+import r_partials
 
 TRUST_COMMON = [
     "rustc nightly: MIR (mir-opt-level=0), type and trait resolution as dumped by driver/lrfacts",
@@ -88,6 +91,50 @@ def c06(rep, tier):
     p = P("all")
     r_pair.run_excl_conditional(p, rep)
     r_pair.run_excl_case(p, rep)
+    rep.analysed["config:all"] = {"bodies": len(p.fns)}
+
+
+def c09(rep, tier):
+    p = P("all")
+    r_freeze.run_freeze(p, rep)
+    r_freeze.run_statics(p, rep)
+    r_lock.run_ambient(p, rep)
+    r_scope.run_newruntime(p, rep)
+    r_lock.run_lock(p, rep)
+    r_freeze.run_autos(p, rep)
+    r_utf8sink.run_unsafe(p, rep)
+    rep.analysed["config:all"] = {"bodies": len(p.fns)}
+    if tier == "thorough":
+        for cfg in ("nodefault", "lib-stdlib", "lib-jekyll", "lib-shopify", "lib-extra"):
+            q = P(cfg)
+            sub = type(rep)(rep.prop, rep.tier)
+            r_freeze.run_statics(q, sub)
+            r_lock.run_ambient(q, sub)
+            for v in sub.violations:
+                rep.viol(v["rule"], "[%s] %s" % (cfg, v["key"].split("|", 1)[1]), v["where"], v["what"], v["detail"])
+            rep.analysed["config:" + cfg] = {"bodies": len(q.fns), "obligations": len(sub.obligations)}
+
+
+def c19(rep, tier):
+    p = P("all")
+    r_partials.run_store_matrix(p, rep)
+    r_partials.run_eager_shape(p, rep)
+    r_partials.run_compile_never_fails(p, rep)
+    r_partials.run_pipeline(p, rep)
+    r_partials.run_name_keyed(p, rep)
+    r_partials.run_loud(p, rep)
+    r_lock.run_lock(p, rep)
+    rep.analysed["config:all"] = {"bodies": len(p.fns)}
+
+
+def c20(rep, tier):
+    p = P("all")
+    r_freeze.run_autos(p, rep)
+    r_freeze.run_freeze(p, rep)
+    r_freeze.run_statics(p, rep)
+    r_lock.run_lock(p, rep)
+    r_lock.run_reentrant_refcell(p, rep)
+    r_utf8sink.run_unsafe(p, rep)
     rep.analysed["config:all"] = {"bodies": len(p.fns)}
 
 
@@ -183,5 +230,52 @@ PROPS = {
         ),
         "trusted": TRUST_COMMON,
         "note": "exactly-one-branch structure only",
+    },
+    "C09": {
+        "run": c09,
+        "level": "other",
+        "design_ref": "DESIGN.md §3 R-FREEZE, R-STATICS, R-AMBIENT, R-NEWRUNTIME, R-LOCK, R-AUTO; §4 C09",
+        "technique": "closed-world deep-immutability type walk over ADT facts (UnsafeCell reachability), statics census, call-graph scan for ambient reads, rustc auto-trait facts",
+        "explanation": (
+            "Decided from type and MIR facts for all histories: no UnsafeCell is reachable (through owned fields, Box/Vec/Arc, references, and every workspace "
+            "implementor of every dyn trait) from any Renderable/Filter/Parse*/PartialStore implementor, Template, Parser, Language or model value, "
+            "except the ledgered LazyStore.cache whose discipline R-LOCK decides (one lock, keyed by the requested name, value = parse(source(name), "
+            "language)); statics are immutable or LazyLock<Regex>; no thread_local/static mut; no ambient read (clock, env, fs) on the render path "
+            "except the date parser's explicit now/today arm; render_to builds its runtime inside the call and Registers are created only by "
+            "RuntimeCore::default / SandboxedStackFrame::new; the built runtime is !Sync per rustc's trait solver. "
+            "NOT decided: equality of results across histories (follows only if no other channel exists), hash iteration order."
+        ),
+        "trusted": TRUST_COMMON + ["rustc trait solver for Send/Sync/Freeze of closed types", "std: UnsafeCell is the only source of interior mutability; no user unsafe (census checked)"],
+        "note": "absence-of-state argument: sound for safe Rust given the unsafe census is empty",
+    },
+    "C19": {
+        "run": c19,
+        "level": "other",
+        "design_ref": "DESIGN.md §3 R-FWD(PartialStore), R-LOCK, R-LOUD; §4 C19",
+        "technique": "delegation matrix over PartialStore impls, return-path census of PartialCompiler::compile, backward slices of cache keys / parsed text / returned values",
+        "explanation": (
+            "Decided from MIR: all three policies compile with parser::parse(text from PartialSource::get/try_get(name), configured language) -> Template::new; "
+            "every PartialCompiler::compile returns Ok on every path (no `?`), the eager store keeps one Result per name and its get/try_get answers derive "
+            "from store.get(name) only; failing and optional lookups never delegate to each other; the lazy cache is keyed by the requested name itself "
+            "with lookup+compile+insert under one lock; include/render use the failing lookup and propagate its error. "
+            "NOT decided: observational equivalence of the policies on every scenario."
+        ),
+        "trusted": TRUST_COMMON,
+        "note": "structural agreement of sibling implementations, not a differential proof",
+    },
+    "C20": {
+        "run": c20,
+        "level": "other",
+        "design_ref": "DESIGN.md §3 R-AUTO(R-WITNESS), R-FREEZE, R-STATICS, R-LOCK, R-REENTRANT; §4 C20",
+        "technique": "rustc trait-solver facts (Send/Sync) + deep-immutability walk + single-critical-section and no-reentrancy CFG/call-graph rules",
+        "explanation": (
+            "Decided: Parser, Template, Language, Box<dyn Renderable>, Arc<dyn PartialStore+Send+Sync> are Send+Sync and the per-render runtime is not Sync "
+            "(rustc's trait solver on /repo's types); Send+Sync are supertraits of the plugin traits; no hand-written unsafe impl/blocks; the only shared "
+            "mutable state reachable from shared objects is LazyStore.cache; it is locked exactly once per lookup with check, compile and insert inside "
+            "that one critical section and no callee under the lock can reach Mutex::lock or a store lookup (no self-deadlock); no RefCell guard is live "
+            "across a call that can re-borrow. NOT decided: schedule-level equivalence; poisoning needs C01's panic census (cross-reference)."
+        ),
+        "trusted": TRUST_COMMON + ["rustc trait solver", "std Mutex/Arc semantics"],
+        "note": "data-race freedom is rustc's own guarantee given Send/Sync facts and no unsafe; lock discipline is checked on MIR",
     },
 }
